@@ -111,6 +111,42 @@ def classify_cause(ctx, body, op, depth=0):
         lit = _literal_result(ctx, body, base, depth)
         if lit is not None:
             return lit
+        # a value that is assigned on several paths (the result of an inlined helper, of a `match` whose arms yield
+        # Results ...): `Ok(..)` literals say nothing about the error; every other definition is classified on its own
+        ds_ = body.whole_defs(base)
+        if len(ds_) >= 2 and depth < 6:
+            causes = []
+            for d in ds_:
+                if d[0] == "stmt":
+                    rv = d[3]["rv"]
+                    if rv["k"] == "agg" and rv.get("variant") == "Ok":
+                        continue
+                    if rv["k"] == "agg" and rv.get("variant") == "Err":
+                        at = body.atoms(rv["ops"][0]) if rv["ops"] else set()
+                        vs = sorted(a[2] for a in at if a[0] == "variant")
+                        causes.append({"kind": "ok_or", "err": vs[0] if len(vs) == 1 else "?", "on": None} if vs else {"kind": "expr", "calls": sorted(a[1] for a in at if a[0] == "call"), "variants": []})
+                    elif rv["k"] == "use" and rv["op"].get("k") in ("move", "copy"):
+                        causes.append(classify_cause(ctx, body, rv["op"], depth + 1))
+                    else:
+                        causes.append({"kind": "value", "ty": ty})
+                elif d[0] == "call":
+                    nm_ = callee_name(d[2]) or ""
+                    if nm_.endswith("FromResidual::from_residual"):
+                        op2, tb2 = try_operand(body, d[2])
+                        causes.append(classify_cause(ctx, body, op2, depth + 1) if op2 is not None else {"kind": "?"})
+                    else:
+                        causes = None
+                        break
+                else:
+                    causes = None
+                    break
+            if causes:
+                c0 = dict(causes[0])
+                if len({str(sorted((k, str(v)) for k, v in c.items())) for c in causes}) > 1:
+                    c0["also"] = [c.get("of") or c.get("err") or c.get("kind") for c in causes[1:]]
+                    c0["kind"] = c0["kind"] if all(c.get("kind") == c0["kind"] and c.get("of") == c0.get("of") for c in causes) else "mixed"
+                c0["through_helper"] = True
+                return c0
         for d in body.whole_defs(base):
             if d[0] == "call":
                 nm = callee_name(d[2]) or ""
@@ -190,6 +226,40 @@ def _literal_result(ctx, body, base, depth=0):
     return {"kind": "expr", "calls": [], "variants": sorted(variants)}
 
 
+def _result_literals(body, bb, rv, line, depth=0, seen=None):
+    """The return value `_0 = rv`: if rv merely passes on another local (the result of an inlined helper, a value
+    built on several branches), the literals / calls that local is given, each at the block where it is given."""
+    if rv["k"] != "use" or rv["op"].get("k") not in ("move", "copy") or depth > 6:
+        return [(bb, rv, line)]
+    pl = rv["op"]["pl"]
+    projs = [p for p in pl["p"] if p != "deref"]
+    lit = body._variant_literal_ops(pl["l"], projs) if projs else None
+    if lit is not None and not lit[1]:
+        out = []
+        for o in lit[0]:
+            if o.get("k") in ("move", "copy"):
+                out += _result_literals(body, bb, {"k": "use", "op": o}, line, depth + 1, seen)
+        return out or [(bb, rv, line)]
+    if projs:
+        return [(bb, rv, line)]
+    seen = seen if seen is not None else set()
+    if pl["l"] in seen or pl["l"] <= body.fn["arg_count"]:
+        return [(bb, rv, line)]
+    seen.add(pl["l"])
+    ds = body.whole_defs(pl["l"])
+    if not ds:
+        return [(bb, rv, line)]
+    out = []
+    for d in ds:
+        if d[0] == "stmt":
+            out += _result_literals(body, d[1], d[3]["rv"], d[3]["line"], depth + 1, seen)
+        elif d[0] == "call" and (callee_name(d[2]) or "").endswith("FromResidual::from_residual"):
+            out.append((d[1], {"k": "call-residual", "term": d[2]}, d[2].get("line", line)))
+        else:
+            return [(bb, rv, line)]
+    return out
+
+
 def exits(ctx, body):
     """All blocks that assign the return place on the way to `return`."""
     out = []
@@ -203,13 +273,18 @@ def exits(ctx, body):
             continue
         for st in blk["stmts"]:
             if st["k"] == "assign" and st["lhs"]["l"] == 0 and not st["lhs"]["p"]:
-                rv = st["rv"]
-                if rv["k"] == "agg" and rv.get("what") == "adt" and rv.get("variant") in ("Ok", "Err"):
-                    e = symex(body, rv["ops"][0]) if rv["ops"] else ("const", None)
-                    out.append({"bb": b, "kind": rv["variant"].lower(), "value": e, "atoms": body.atoms(rv["ops"][0]) if rv["ops"] else set(),
-                                "line": st["line"]})
-                else:
-                    out.append({"bb": b, "kind": "other", "rv": rv, "line": st["line"]})
+                for (lb, rv, line) in _result_literals(body, b, st["rv"], st["line"]):
+                    if rv["k"] == "agg" and rv.get("what") == "adt" and rv.get("variant") in ("Ok", "Err"):
+                        e = symex(body, rv["ops"][0]) if rv["ops"] else ("const", None)
+                        out.append({"bb": lb, "kind": rv["variant"].lower(), "value": e, "atoms": body.atoms(rv["ops"][0]) if rv["ops"] else set(),
+                                    "line": line, "op": rv["ops"][0] if rv["ops"] else None, "ret_bb": b})
+                    elif rv["k"] == "call-residual":
+                        t2 = rv["term"]
+                        op, tb = try_operand(body, t2)
+                        cause = classify_cause(ctx, body, op) if op is not None else {"kind": "?"}
+                        out.append({"bb": lb, "kind": "residual", "err_ty": _residual_err_ty(t2), "cause": cause, "try_bb": tb, "try_op": op})
+                    else:
+                        out.append({"bb": lb, "kind": "other", "rv": rv, "line": line})
         if t["k"] == "call" and t["dest"]["l"] == 0 and not t["dest"]["p"] and not (callee_name(t) or "").endswith("from_residual"):
             out.append({"bb": b, "kind": "callret", "call": callee_resolved(t)})
     return out
@@ -221,7 +296,8 @@ ALLOWED = {
         ("transport end -> SocketClosed", lambda c, e: c["kind"] == "ok_or" and c["err"] == "SocketClosed" and "RxPacket" in (c["on"] or "")),
         ("all handles dropped -> HandleClosed", lambda c, e: c["kind"] == "ok_or" and c["err"] == "HandleClosed" and "ContextMessage" in (c["on"] or "")),
         ("undecodable input -> CodecError", lambda c, e: c["kind"] == "value" and "Result<codec::packet::RxPacket, core::error::CodecError>" in (c["ty"] or "")),
-        ("propagates helper", lambda c, e: c["kind"] == "await" and re.search(r"Context::(handle_packet|handle_message|retransmit)$", c["of"])),
+        ("propagates helper", lambda c, e: c["kind"] == "await" and re.search(r"Context::(handle_packet|handle_message)$", c["of"])),
+        ("replay write failed", lambda c, e: c["kind"] == "await" and c["of"].endswith("TxPacketStream::write")),
     ],
     "handle_packet": [
         ("acknowledgement write failed", lambda c, e: c["kind"] == "await" and c["of"].endswith("Context::ack")),
@@ -230,7 +306,6 @@ ALLOWED = {
         ("write failed", lambda c, e: c["kind"] == "await" and c["of"].endswith("TxPacketStream::write")),
     ],
     "ack": [("write failed", lambda c, e: c["kind"] == "await" and c["of"].endswith("TxPacketStream::write"))],
-    "retransmit": [("write failed", lambda c, e: c["kind"] == "await" and c["of"].endswith("TxPacketStream::write"))],
 }
 
 
@@ -240,7 +315,6 @@ def _role_bodies(ctx):
         "handle_packet": ctx.inbound_handler(),
         "handle_message": ctx.outbound_handler(),
         "ack": ctx.coroutine(r"client::context::Context::<[^>]*>::ack"),
-        "retransmit": ctx.coroutine(r"client::context::Context::<[^>]*>::retransmit"),
     }
 
 
@@ -315,7 +389,7 @@ def exits_explicit(ctx):
     if n_err == 0:
         out.append(Inst("EXITS-EXPLICIT", "handle_packet:no-disconnect-error", False, hp.site(arms.get("Disconnect", sw)),
                         "no explicit Err exit for a server DISCONNECT", "Disconnected for every non-zero reason"))
-    for role in ("handle_message", "ack", "retransmit"):
+    for role in ("handle_message", "ack"):
         body = _role_bodies(ctx)[role]
         for e in exits(ctx, body):
             if e["kind"] == "err":
@@ -351,6 +425,21 @@ def _disconnect_success_edge(ctx, body, bb):
                 truth = c.holds_on(s_)
                 if truth is not None:
                     return truth if n[0] == "Eq" else (not truth)
+    return None
+
+
+def _payload_type_test(ctx, body, op):
+    """If the operand is the value of `packet[0] >> 4 == <T as PacketID>::PACKET_ID` (or !=): (type name, value of the
+    expression when the packet is of that type)."""
+    o = body.origin(op, through_calls=False)
+    if o[0] != "rv" or o[2]["rv"]["k"] != "bin" or o[2]["rv"]["op"] not in ("Eq", "Ne"):
+        return None
+    rv = o[2]["rv"]
+    types = {v: k for k, v in ctx.spec("packets")["types"].items()}
+    for x, y in ((rv["a"], rv["b"]), (rv["b"], rv["a"])):
+        if x.get("k") == "const" and x.get("uneval") and x["uneval"]["name"] == "PACKET_ID" and isinstance(x["uneval"]["eval"], int):
+            if any(a[0] == "field" and a[2] == "packet" for a in body.atoms(y)):
+                return (types.get(x["uneval"]["eval"], str(x["uneval"]["eval"])), rv["op"] == "Eq")
     return None
 
 
@@ -423,8 +512,8 @@ def exits_ok(ctx):
         si_d = run.switch_info(d)
         src_d = {"pl": si_d["place"]} if si_d["kind"] == "discr" else t_d["op"]
         deep = run.atoms(src_d if "pl" not in src_d or "k" in src_d else src_d["pl"])
-        polled_all = sorted({a[1] for a in deep if a[0] == "call" and re.search(r"Context::(handle_packet|handle_message|ack|retransmit)::\{closure#0\}$", a[1])})
-        handler_calls = [(i, t) for i, t in run.calls(r"Context::(handle_packet|handle_message|ack|retransmit)$")]
+        polled_all = sorted({a[1] for a in deep if a[0] == "call" and re.search(r"Context::(handle_packet|handle_message|ack)::\{closure#0\}$", a[1])})
+        handler_calls = [(i, t) for i, t in run.calls(r"Context::(handle_packet|handle_message|ack)$")]
         feeding = [i for i, t in handler_calls if run.completion_of(i) and run.dominates(run.completion_of(i)["ready_bb"], d)]
         between = []
         loop_heads = {b for b in run.reach if any(run.dominates(b, p) for p in run.pred(b))}
@@ -447,6 +536,13 @@ def exits_ok(ctx):
                 continue
             s_ = _signal_of(x)
             is_stop = (sig[0] == "bool" and s_ == ("bool", sig[1])) or (sig[0] == "variant" and s_[0] == "variant" and s_[1] in sig[1])
+            if s_ == ("expr",) and sig[0] == "bool" and helper == "handle_message" and x.get("op") is not None:
+                # `Ok(packet_type == DISCONNECT)`: the exit is a stop exit exactly when the packet is a DISCONNECT
+                ty_ = _payload_type_test(ctx, hb, x["op"])
+                if ty_ is not None:
+                    x = dict(x)
+                    x["payload_test"] = ty_
+                    is_stop = (ty_[0] == "DISCONNECT" and ty_[1] == sig[1])
             (stop_exits if is_stop else cont_exits).append(x)
         if not stop_exits:
             out.append(Inst("EXITS-OK", "%s:no-stop-exit" % helper, False, hb.site(0), "%s never returns the value %s on which run() stops" % (helper, sig), "a stop signal for graceful disconnection"))
@@ -463,7 +559,7 @@ def exits_ok(ctx):
             else:
                 guards = type_guards(ctx, hb)
                 g = guards.get("DISCONNECT")
-                in_reg = g is not None and hb.dominates(g[1], x["bb"])
+                in_reg = (g is not None and hb.dominates(g[1], x["bb"])) or (x.get("payload_test") is not None and x["payload_test"][0] == "DISCONNECT")
                 effs = [f for f in ctx.effects(hb) if f.kind == "TxWrite"]
                 # the DISCONNECT write completed before the stop exit, and no write can follow it
                 w_before = [f for f in effs if hb.completion_of(f.inner_bb) and hb.dominates(hb.completion_of(f.inner_bb)["ready_bb"], x["bb"])]
